@@ -181,6 +181,53 @@ pub fn probe_structures() -> i32 {
             }
         }
     }
+    // C06: a built and signed message is a message the decoder takes back, whatever the (individually well-formed) header
+    // buckets hold - the same parameter may sit in both buckets, the crate's data model has no rule against it - and the
+    // verifier is then handed the bytes the signer was handed
+    if relevant("C06") {
+        let both = HeaderBuilder::new().algorithm(iana::Algorithm::ES256).key_id(vec![9, 9]).content_format(iana::CoapContentFormat::Cbor).value(1000, Value::from(1)).text_value("t".into(), Value::Null).build();
+        let other = HeaderBuilder::new().algorithm(iana::Algorithm::ES384).key_id(vec![8]).content_type("a/b".into()).value(1000, Value::from(2)).text_value("t".into(), Value::from(3)).iv(vec![1]).build();
+        for (up, un) in [(both.clone(), both.clone()), (both.clone(), other.clone()), (Header::default(), other.clone()), (other.clone(), Header::default())] {
+            let aad = bytes(5, 1); let payload = bytes(9, 2);
+            n += 1;
+            let mut made: Vec<u8> = vec![];
+            let m = CoseSign1Builder::new().protected(up.clone()).unprotected(un.clone()).payload(payload.clone()).create_signature(&aad, |d| { made = d.to_vec(); vec![7; 4] }).build();
+            let w = m.to_vec().unwrap();
+            match CoseSign1::from_slice(&w) {
+                Ok(back) => { let mut seen: Vec<u8> = vec![]; let _ = back.verify_signature(&aad, |s2, d| -> Result<(), ()> { seen = if s2 == [7; 4] { d.to_vec() } else { vec![0xff] }; Ok(()) });
+                    if seen != made { println!("FAILING-INPUT COSE_Sign1 {} built with parameters in both header buckets: the verifier is handed {}.., the signer was handed {}..", hex(&w), hex(&seen[..seen.len().min(16)]), hex(&made[..made.len().min(16)])); return 1; } }
+                Err(e) => { println!("FAILING-INPUT COSE_Sign1 {} was built and signed through the builder, yet the decoder refuses it ({:?}): its signature can never reach a verifier", hex(&w), e); return 1; }
+            }
+            n += 1;
+            let mut made2: Vec<u8> = vec![];
+            let sg = CoseSignatureBuilder::new().protected(up.clone()).unprotected(un.clone()).build();
+            let m = CoseSignBuilder::new().protected(up.clone()).unprotected(un.clone()).payload(payload.clone()).add_created_signature(sg, &aad, |d| { made2 = d.to_vec(); vec![6; 3] }).build();
+            let w = m.to_vec().unwrap();
+            match CoseSign::from_slice(&w) {
+                Ok(back) => { let mut seen: Vec<u8> = vec![]; let _ = back.verify_signature(0, &aad, |s2, d| -> Result<(), ()> { seen = if s2 == [6; 3] { d.to_vec() } else { vec![0xff] }; Ok(()) });
+                    if seen != made2 { println!("FAILING-INPUT COSE_Sign {} built with parameters in both header buckets: verifier and signer are handed different bytes", hex(&w)); return 1; } }
+                Err(e) => { println!("FAILING-INPUT COSE_Sign {} was built and signed through the builder, yet the decoder refuses it ({:?})", hex(&w), e); return 1; }
+            }
+            n += 1;
+            let mut made3: Vec<u8> = vec![];
+            let m = CoseMac0Builder::new().protected(up.clone()).unprotected(un.clone()).payload(payload.clone()).create_tag(&aad, |d| { made3 = d.to_vec(); vec![5; 2] }).build();
+            let w = m.to_vec().unwrap();
+            match CoseMac0::from_slice(&w) {
+                Ok(back) => { let mut seen: Vec<u8> = vec![]; let _ = back.verify_tag(&aad, |t2, d| -> Result<(), ()> { seen = if t2 == [5; 2] { d.to_vec() } else { vec![0xff] }; Ok(()) });
+                    if seen != made3 { println!("FAILING-INPUT COSE_Mac0 {} built with parameters in both header buckets: verifier and MAC creator are handed different bytes", hex(&w)); return 1; } }
+                Err(e) => { println!("FAILING-INPUT COSE_Mac0 {} was built and tagged through the builder, yet the decoder refuses it ({:?})", hex(&w), e); return 1; }
+            }
+            n += 1;
+            let mut made4: Vec<u8> = vec![];
+            let m = CoseEncrypt0Builder::new().protected(up.clone()).unprotected(un.clone()).create_ciphertext(&payload, &aad, |_p, d| { made4 = d.to_vec(); vec![4; 2] }).build();
+            let w = m.to_vec().unwrap();
+            match CoseEncrypt0::from_slice(&w) {
+                Ok(back) => { let mut seen: Vec<u8> = vec![]; let _ = back.decrypt(&aad, |c2, d| -> Result<Vec<u8>, ()> { seen = if c2 == [4; 2] { d.to_vec() } else { vec![0xff] }; Ok(vec![]) });
+                    if seen != made4 { println!("FAILING-INPUT COSE_Encrypt0 {} built with parameters in both header buckets: decryptor and encryptor are handed different bytes", hex(&w)); return 1; } }
+                Err(e) => { println!("FAILING-INPUT COSE_Encrypt0 {} was built through the builder, yet the decoder refuses it ({:?})", hex(&w), e); return 1; }
+            }
+        }
+    }
     // builders: what create/add helpers hand to the closure, and what verification sees after the wire
     for (&la, empty_hdr) in [0usize, 24, 255, 256, 65535].iter().zip([false, true, false, true, false]).chain([0usize, 24].iter().zip([true, false])) {
         let aad = bytes(la, 3);
@@ -253,6 +300,13 @@ pub fn probe_structures() -> i32 {
             check!("C05,C06", got.clone(), structure(name, &[&slot, &aad]), format!("recipient create {} aad_len={}", name, la));
             let _ = CoseRecipientBuilder::new().protected(hdr.clone()).try_create_ciphertext(c, &payload, &aad, |_pt, d| -> Result<Vec<u8>, ()> { got = d.to_vec(); Ok(vec![4]) });
             check!("C05,C06", got.clone(), structure(name, &[&slot, &aad]), format!("recipient try_create {} aad_len={}", name, la));
+            // the context is the caller's choice, whatever else the recipient holds (its own recipients, a ciphertext, headers)
+            let inner = CoseRecipientBuilder::new().ciphertext(vec![1]).build();
+            let _ = CoseRecipientBuilder::new().protected(hdr.clone()).add_recipient(inner.clone()).create_ciphertext(c, &payload, &aad, |_pt, d| { got = d.to_vec(); vec![4] });
+            check!("C05,C06", got.clone(), structure(name, &[&slot, &aad]), format!("recipient (holding a recipient) create {} aad_len={}", name, la));
+            let rc = CoseRecipientBuilder::new().protected(hdr.clone()).add_recipient(inner.clone()).add_recipient(inner.clone()).ciphertext(vec![2]).build();
+            let _ = rc.decrypt(c, &aad, |_ct, d| -> Result<Vec<u8>, ()> { got = d.to_vec(); Ok(vec![]) });
+            check!("C05,C06", got.clone(), structure(name, &[&slot, &aad]), format!("recipient (holding recipients) decrypt {} aad_len={}", name, la));
         }
         }
         if relevant("C04,C06,C01") {
@@ -659,6 +713,20 @@ pub fn probe_framing() -> i32 {
             let mut b = hd.clone(); b.extend($body);
             if <$t>::from_tagged_slice(&b).is_err() { if report("C14", format!("{}::from_tagged_slice rejects its own tag written with the head {} (tag numbers, not byte patterns, identify the type)", $name, hex(&hd))) { return 1; } }
         }
+        // every one- and two-byte prefix in front of the untagged body: accepted exactly when the prefix is a tag head carrying
+        // this type's tag number (a look-alike first byte - a simple value, another major type - is not a tag)
+        {
+            let tg: u64 = $tag;
+            let mut prefixes: Vec<Vec<u8>> = vec![];
+            for a in 0..=255u8 { prefixes.push(vec![a]); for b2 in 0..=255u8 { prefixes.push(vec![a, b2]); } }
+            for pf in &prefixes {
+                n += 1;
+                let want = (pf.len() == 1 && tg < 24 && pf[0] == 0xc0 | tg as u8) || (pf.len() == 2 && pf[0] == 0xd8 && tg < 256 && pf[1] == tg as u8);
+                let mut b = pf.clone(); b.extend($body);
+                let got = <$t>::from_tagged_slice(&b).is_ok();
+                if got != want { if report("C14", format!("{}::from_tagged_slice {} (prefix {} + untagged body): {}", $name, hex(&b), hex(pf), if got { "accepted" } else { "rejected" })) { return 1; } }
+            }
+        }
         let v = <$t>::from_slice(&$body).unwrap();
         let mut want = head(6, $tag); want.extend(v.clone().to_vec().unwrap());
         if v.to_tagged_vec().unwrap() != want { if report("C14", format!("{}::to_tagged_vec is not tag {} applied to to_vec", $name, $tag)) { return 1; } }
@@ -785,6 +853,36 @@ pub fn probe_integers() -> i32 {
         let kr = CoseKey::from_cbor_value(km);
         if !in_i64 && !oor(kr.map(|_| ())) { if report("C15,C18", format!("key label {} is not OutOfRangeIntegerValue", x)) { return 1; } }
     }
+    // width aliasing: a registered value shifted by a multiple of 2^8 / 2^16 / 2^32 is a different integer; at every typed
+    // position it is classified as itself (reference model), never as the value its low bits spell, and an accepted one
+    // encodes back to the same integer
+    {
+        let offs: [i128; 8] = [1 << 8, -(1 << 8), 1 << 16, -(1 << 16), 1 << 32, -(1 << 32), 1 << 63, 1 << 17];
+        let mut cases: Vec<(&str, Value, bool)> = vec![];
+        let big = |x: i128| Integer::try_from(x).ok().map(Value::Integer);
+        for &o in &offs {
+            for &r in ALGS.iter().step_by(7).chain([-7i64, 1, -65535].iter()) { if let Some(iv) = big(r as i128 + o) {
+                cases.push(("header alg", Value::Map(vec![(Value::from(1), iv.clone())]), true));
+                cases.push(("key alg", Value::Map(vec![(Value::from(1), Value::from(4)), (Value::from(3), iv.clone())]), false)); } }
+            for &r in CONTENT_FORMATS.iter().step_by(5).chain([0i64, 50, 60].iter()) { if let Some(iv) = big(r as i128 + o) {
+                cases.push(("header content type", Value::Map(vec![(Value::from(3), iv.clone())]), true)); } }
+            for &r in HDR_PARAMS.iter() { if let Some(iv) = big(r as i128 + o) {
+                cases.push(("header crit element", Value::Map(vec![(Value::from(2), Value::Array(vec![iv.clone()]))]), true)); } }
+            for r in 0i64..=6 { if let Some(iv) = big(r as i128 + o) {
+                cases.push(("key type", Value::Map(vec![(Value::from(1), iv.clone())]), false));
+                cases.push(("key operation", Value::Map(vec![(Value::from(1), Value::from(4)), (Value::from(4), Value::Array(vec![iv.clone()]))]), false)); } }
+            for &r in CLAIMS.iter() { if let Some(iv) = big(r as i128 + o) {
+                cases.push(("claim name", Value::Map(vec![(iv.clone(), Value::Null)]), false)); } }
+        }
+        for (what, v, is_hdr) in cases {
+            n += 1;
+            let (got, want, back) = if is_hdr { let r = Header::from_cbor_value(v.clone()); (r.is_ok(), hdr_ref(&v, 0), r.ok().and_then(|h| h.to_cbor_value().ok())) }
+                else if what == "claim name" { let r = cwt::ClaimsSet::from_cbor_value(v.clone()); (r.is_ok(), claims_ref(&v), r.ok().and_then(|h| h.to_cbor_value().ok())) }
+                else { let r = CoseKey::from_cbor_value(v.clone()); (r.is_ok(), key_ref(&v), r.ok().and_then(|h| h.to_cbor_value().ok())) };
+            if got != want { if report("C15,C17", format!("{} {}: crate {} it; the integer is {} for that position (its low bits may spell a registered one)", what, hex(&ser(&v)), if got { "accepts" } else { "rejects" }, if want { "registered / private-use" } else { "not registered" })) { return 1; } }
+            if got && back.as_ref() != Some(&v) { if report("C15,C07", format!("{} {}: accepted but encodes back to {:?}", what, hex(&ser(&v)), back.map(|b| hex(&ser(&b))))) { return 1; } }
+        }
+    }
     println!("probe integers: {} lattice points x positions, no disagreement", n);
     0
 }
@@ -902,6 +1000,23 @@ pub fn probe_messages() -> i32 {
     let names = ["COSE_Sign1", "COSE_Sign", "COSE_Signature", "COSE_Mac", "COSE_Mac0", "COSE_Encrypt", "COSE_Encrypt0", "COSE_recipient"];
     let mut n = 0u64; let mut accepted = 0u64;
     std::panic::set_hook(Box::new(|_| {}));      // panics of the follow-up operations are caught and reported below
+    // recipients inside recipients: the CDDL is recursive, so every nesting depth of well-formed recipients is well-formed
+    // (standalone, inside COSE_Encrypt, inside COSE_Mac), and the innermost one must come back where it was put
+    for depth in 0..=12usize {
+        n += 1;
+        let mut rcp = Value::Array(vec![Value::Bytes(vec![]), Value::Map(vec![(Value::from(4), Value::Bytes(vec![depth as u8 + 1]))]), Value::Null]);
+        for _ in 0..depth { rcp = Value::Array(vec![Value::Bytes(vec![]), Value::Map(vec![]), Value::Bytes(vec![7]), Value::Array(vec![rcp])]); }
+        let innermost = |mut x: &CoseRecipient| -> Vec<u8> { while let Some(c) = x.recipients.first() { x = c; } x.unprotected.key_id.clone() };
+        match CoseRecipient::from_cbor_value(rcp.clone()) {
+            Ok(x) => if innermost(&x) != vec![depth as u8 + 1] { if report("C09", format!("COSE_recipient nested {} deep: innermost recipient is not the one on the wire", depth)) { return 1; } },
+            Err(e) => { if report("C09", format!("COSE_recipient {} ({} recipients deep): crate rejects it ({:?}), its CDDL says accept", hex(&ser(&rcp)), depth, e)) { return 1; } }
+        }
+        let enc = Value::Array(vec![Value::Bytes(vec![]), Value::Map(vec![]), Value::Null, Value::Array(vec![rcp.clone()])]);
+        if let Err(e) = CoseEncrypt::from_cbor_value(enc.clone()) { if report("C09", format!("COSE_Encrypt {} (recipients {} deep): crate rejects it ({:?}), its CDDL says accept", hex(&ser(&enc)), depth, e)) { return 1; } }
+        if CoseEncrypt::from_slice(&ser(&enc)).is_err() { if report("C09", format!("COSE_Encrypt {} (recipients {} deep): from_slice rejects it, its CDDL says accept", hex(&ser(&enc)), depth)) { return 1; } }
+        let mac = Value::Array(vec![Value::Bytes(vec![]), Value::Map(vec![]), Value::Null, Value::Bytes(vec![1]), Value::Array(vec![rcp.clone()])]);
+        if let Err(e) = CoseMac::from_cbor_value(mac.clone()) { if report("C09", format!("COSE_Mac {} (recipients {} deep): crate rejects it ({:?}), its CDDL says accept", hex(&ser(&mac)), depth, e)) { return 1; } }
+    }
     for _ in 0..scale(4000) {
         let kind = r.below(8) as usize;
         let mut a: Vec<Value> = if kind == 7 { match gen_recipient(&mut r, 0) { Value::Array(a) => a, _ => vec![] } } else { shapes[kind].iter().map(|w| gen_slot(&mut r, *w)).collect() };
@@ -1217,7 +1332,9 @@ pub fn probe_roundtrip() -> i32 {
     let unprot: Vec<Vec<u8>> = vec![vec![0xa0], vec![0xa1, 0x04, 0x41, 0x0b],
         // every typed field at once plus extras with label 0, 8, negative, large and text labels
         vec![0xa9, 0x01, 0x26, 0x02, 0x81, 0x04, 0x03, 0x18, 0x3c, 0x04, 0x41, 0x01, 0x05, 0x41, 0x02, 0x00, 0x01, 0x08, 0xf6, 0x38, 0x63, 0x20, 0x61, b'z', 0x1a, 0x00, 0x01, 0x00, 0x00],
-        vec![0xa2, 0x06, 0x42, 0x01, 0x02, 0x03, 0x63, b'a', b'/', b'b'], vec![0xa1, 0x00, 0xa1, 0x00, 0x80], vec![0xa2, 0x19, 0x01, 0x00, 0x01, 0x18, 0x21, 0x81, 0x41, 0x00], vec![0xa1, 0x07, 0x82, 0x83, 0x40, 0xa0, 0x40, 0x83, 0x41, 0xa0, 0xa1, 0x05, 0x41, 0x01, 0x41, 0x02]];
+        vec![0xa2, 0x06, 0x42, 0x01, 0x02, 0x03, 0x63, b'a', b'/', b'b'], vec![0xa1, 0x00, 0xa1, 0x00, 0x80],
+        // text content types the decoder accepts: inner blanks, parameters, non-ASCII
+        [vec![0xa1u8, 0x03], tstr("a/b c")].concat(), [vec![0xa1u8, 0x03], tstr("text/plain; charset=utf-8")].concat(), [vec![0xa1u8, 0x03], tstr("é/ü x")].concat(), vec![0xa2, 0x19, 0x01, 0x00, 0x01, 0x18, 0x21, 0x81, 0x41, 0x00], vec![0xa1, 0x07, 0x82, 0x83, 0x40, 0xa0, 0x40, 0x83, 0x41, 0xa0, 0xa1, 0x05, 0x41, 0x01, 0x41, 0x02]];
     // C02: a decoded value written again carries the protected byte string exactly as received
     macro_rules! carries { ($t:ty, $bytes:expr, $prot:expr, $name:expr) => {{
         let b: Vec<u8> = $bytes;
